@@ -52,7 +52,7 @@ ASSUMPTIONS = [
     "Dyna-Q's model is internal to train_dynaq; it is observed as the arguments train_dynaq passes to dynaq.planning (wrapper located by name) and through dynaq.counter_update/model_update directly",
     "Monte-Carlo: every-visit averaging as documented; a supplied n_visits table counts as that many earlier returns with mean q_table",
     "float32 results vs float64 reference: |a-b| <= 1e-5*max(1,|b|); untouched entries bytes-equal",
-    "states <= 3, actions <= 2 (3 in one thorough table); history horizon 5 with <= 2 episode ends (quick); full product at horizon 6 for the base Q-learning/SARSA/double-Q/Monte-Carlo configurations and horizon 5 for the others (thorough)",
+    "states <= 3, actions <= 2 (3 in one thorough table); history horizon 5 with <= 2 episode ends (quick); thorough: full product at horizon 6 for the base Q-learning/SARSA/double-Q/Monte-Carlo configurations, full product at horizon 5 for the others except two Dyna-Q configurations (horizon 5, <= 2 episode ends)",
 ]
 BUDGET_S = {"quick": 600, "thorough": 3000}
 
@@ -592,28 +592,32 @@ class ChainEnv(gym.Env):
 
 
 def hist_configs(tier, seed):
-    """Learner configurations of the history layer (everything here is a harness choice).  T = horizon: quick 5
-    with at most 2 episode ends; thorough 6 (full product) for the base configurations of the cheap learners and
-    5 (full product) for the rest (a Dyna-Q step costs 5-8 Q-learning steps)."""
-    T6 = 5 if tier == "quick" else 6
-    base = dict(gamma=0.5, lr=0.5, eps=0.5, table=0, seed=1 + seed, T=5)
+    """Learner configurations of the history layer (everything here is a harness choice).
+    T = horizon, maxdev = bound on episode ends per history (None: full product).  quick: T=5, maxdev=2 everywhere.
+    thorough: full product at T=6 for the base Q-learning / SARSA / double-Q / Monte-Carlo configurations, full
+    product at T=5 for the other cheap ones and two Dyna-Q configurations, T=5 / maxdev=2 for the two Dyna-Q
+    configurations whose oracle or run is most expensive (a Dyna-Q step costs 5-8 Q-learning steps)."""
+    quick = tier == "quick"
+    T6 = 5 if quick else 6
+    full = 2 if quick else None
+    base = dict(gamma=0.5, lr=0.5, eps=0.5, table=0, seed=1 + seed, T=5, maxdev=full)
     cfgs = []
     for learner in ("ql", "sarsa", "dql"):
         cfgs.append(dict(base, learner=learner, cfg=f"{learner}-g.5-lr.5", T=T6))
-    cfgs.append(dict(base, learner="dql", seed=8 + seed, table=2, cfg="dql-g.5-lr.5-seedB", T=T6))  # other table-choice pattern
+    cfgs.append(dict(base, learner="dql", seed=8 + seed, table=2, cfg="dql-g.5-lr.5-seedB"))  # other table-choice pattern
     cfgs.append(dict(base, learner="mc", nv=None, cfg="mc-g.5-fresh", T=T6))
-    cfgs.append(dict(base, learner="mc", nv=[[0, 1], [2, 0], [1, 3]], table=2, cfg="mc-g.5-continued", T=T6))
+    cfgs.append(dict(base, learner="mc", nv=[[0, 1], [2, 0], [1, 3]], table=2, cfg="mc-g.5-continued"))
     cfgs.append(dict(base, learner="dyna", k=0, buf=1000, cfg="dyna-k0"))
     cfgs.append(dict(base, learner="dyna", k=2, buf=1, cfg="dyna-k2-buf1"))
-    cfgs.append(dict(base, learner="dyna", k=1, buf=1000, table=2, cfg="dyna-k1-buf1000"))
-    if tier == "thorough":
+    cfgs.append(dict(base, learner="dyna", k=1, buf=1000, table=2, cfg="dyna-k1-buf1000", maxdev=2))
+    if not quick:
         alt = dict(base, gamma=1.0, lr=1.0, eps=1.0, table=2)
         alt2 = dict(base, gamma=0.9, lr=0.1, eps=0.0, table=4)
         for learner in ("ql", "sarsa", "dql"):
             cfgs.append(dict(alt, learner=learner, cfg=f"{learner}-g1-lr1-eps1"))
             cfgs.append(dict(alt2, learner=learner, cfg=f"{learner}-g.9-lr.1-eps0"))
         cfgs.append(dict(alt, learner="mc", nv=None, cfg="mc-g1-eps1"))
-        cfgs.append(dict(alt2, learner="dyna", k=1, buf=1, cfg="dyna-k1-buf1-g.9-lr.1"))
+        cfgs.append(dict(alt2, learner="dyna", k=1, buf=1, cfg="dyna-k1-buf1-g.9-lr.1", maxdev=2))
     return cfgs
 
 
@@ -919,17 +923,17 @@ def items(tier, seed):
         out.append(dict(name=f"single-dyna-model-L{L}", kind="single_model", L=L, seed=seed))
     for ti in ([0, 2] if tier == "quick" else [0, 1, 2, 4]):
         out.append(dict(name=f"single-dyna-planning-table{ti}", kind="single_planning", table=ti, seed=seed))
-    maxdev = 2 if tier == "quick" else None
     hist = []
     for cfg in hist_configs(tier, seed):
-        Tc, md = cfg.pop("T"), maxdev
+        Tc, md = cfg.pop("T"), cfg.pop("maxdev")
         for p1 in SYMS:
             for p2 in SYMS:
                 if md is not None and (p1[1] != "c") + (p2[1] != "c") > md:
                     continue
                 hist.append(dict(name=f"hist-{cfg['cfg']}-{p1}{p2}", kind="history", cfg=cfg, prefix=[p1, p2], check_root=(p2 == SYMS[0]),
                                  T=Tc, maxdev=md, seed=seed))
-    hist.sort(key=lambda it: -it["T"])
+    cost = {"dyna": 8, "mc": 3}
+    hist.sort(key=lambda it: -cost.get(it["cfg"]["learner"], 1) * 6 ** it["T"] * (1.0 if it["maxdev"] is None else 0.25))
     # long items first
     return hist + out
 
